@@ -103,6 +103,134 @@ func notEq(eq Object, err error) (Object, error) {
 	return Not(eq)
 }
 
+// Arithmetic
+//
+// bool is a subclass of int, so False and True take part in int's
+// number protocol as 0 and 1 and the results are ints.  Only the
+// forward methods are needed: int, float and complex already accept a
+// bool as their other operand.
+
+// The int value of the bool
+func (a Bool) toInt() Int {
+	if a {
+		return Int(1)
+	}
+	return Int(0)
+}
+
+func (a Bool) M__neg__() (Object, error) {
+	return a.toInt().M__neg__()
+}
+
+func (a Bool) M__pos__() (Object, error) {
+	return a.toInt().M__pos__()
+}
+
+func (a Bool) M__abs__() (Object, error) {
+	return a.toInt().M__abs__()
+}
+
+func (a Bool) M__invert__() (Object, error) {
+	return a.toInt().M__invert__()
+}
+
+func (a Bool) M__add__(other Object) (Object, error) {
+	return a.toInt().M__add__(other)
+}
+
+func (a Bool) M__sub__(other Object) (Object, error) {
+	return a.toInt().M__sub__(other)
+}
+
+func (a Bool) M__mul__(other Object) (Object, error) {
+	return a.toInt().M__mul__(other)
+}
+
+func (a Bool) M__truediv__(other Object) (Object, error) {
+	return a.toInt().M__truediv__(other)
+}
+
+func (a Bool) M__floordiv__(other Object) (Object, error) {
+	return a.toInt().M__floordiv__(other)
+}
+
+func (a Bool) M__mod__(other Object) (Object, error) {
+	return a.toInt().M__mod__(other)
+}
+
+func (a Bool) M__lshift__(other Object) (Object, error) {
+	return a.toInt().M__lshift__(other)
+}
+
+func (a Bool) M__rshift__(other Object) (Object, error) {
+	return a.toInt().M__rshift__(other)
+}
+
+func (a Bool) M__divmod__(other Object) (Object, Object, error) {
+	return a.toInt().M__divmod__(other)
+}
+
+func (a Bool) M__pow__(other, modulus Object) (Object, error) {
+	return a.toInt().M__pow__(other, modulus)
+}
+
+// The bitwise operators of two bools return a bool
+
+func (a Bool) M__and__(other Object) (Object, error) {
+	if b, ok := other.(Bool); ok {
+		return a && b, nil
+	}
+	return a.toInt().M__and__(other)
+}
+
+func (a Bool) M__xor__(other Object) (Object, error) {
+	if b, ok := other.(Bool); ok {
+		return NewBool(a != b), nil
+	}
+	return a.toInt().M__xor__(other)
+}
+
+func (a Bool) M__or__(other Object) (Object, error) {
+	if b, ok := other.(Bool); ok {
+		return a || b, nil
+	}
+	return a.toInt().M__or__(other)
+}
+
+func (a Bool) M__int__() (Object, error) {
+	return a.toInt(), nil
+}
+
+func (a Bool) M__float__() (Object, error) {
+	return a.toInt().M__float__()
+}
+
+func (a Bool) M__complex__() (Object, error) {
+	return a.toInt().M__complex__()
+}
+
+func (a Bool) M__round__(digits Object) (Object, error) {
+	return a.toInt().M__round__(digits)
+}
+
+// Rich comparison - bools order as the ints 0 and 1
+
+func (a Bool) M__lt__(other Object) (Object, error) {
+	return a.toInt().M__lt__(other)
+}
+
+func (a Bool) M__le__(other Object) (Object, error) {
+	return a.toInt().M__le__(other)
+}
+
+func (a Bool) M__gt__(other Object) (Object, error) {
+	return a.toInt().M__gt__(other)
+}
+
+func (a Bool) M__ge__(other Object) (Object, error) {
+	return a.toInt().M__ge__(other)
+}
+
 // Check interface is satisfied
 var _ I__bool__ = Bool(false)
 var _ I__index__ = Bool(false)
@@ -110,3 +238,28 @@ var _ I__str__ = Bool(false)
 var _ I__repr__ = Bool(false)
 var _ I__eq__ = Bool(false)
 var _ I__ne__ = Bool(false)
+var _ I__neg__ = Bool(false)
+var _ I__pos__ = Bool(false)
+var _ I__abs__ = Bool(false)
+var _ I__invert__ = Bool(false)
+var _ I__add__ = Bool(false)
+var _ I__sub__ = Bool(false)
+var _ I__mul__ = Bool(false)
+var _ I__truediv__ = Bool(false)
+var _ I__floordiv__ = Bool(false)
+var _ I__mod__ = Bool(false)
+var _ I__lshift__ = Bool(false)
+var _ I__rshift__ = Bool(false)
+var _ I__divmod__ = Bool(false)
+var _ I__pow__ = Bool(false)
+var _ I__and__ = Bool(false)
+var _ I__xor__ = Bool(false)
+var _ I__or__ = Bool(false)
+var _ I__int__ = Bool(false)
+var _ I__float__ = Bool(false)
+var _ I__complex__ = Bool(false)
+var _ I__round__ = Bool(false)
+var _ I__lt__ = Bool(false)
+var _ I__le__ = Bool(false)
+var _ I__gt__ = Bool(false)
+var _ I__ge__ = Bool(false)
